@@ -1,4 +1,5 @@
 import PGM.Proofs.OracleSem
+import PGM.Proofs.ExactDisjoint
 /-!
 # C16 — approximate marginal oracles are normalised, and exact on acyclic structures
 
@@ -22,7 +23,7 @@ are for the real-number instance (exact arithmetic: no overflow, `log`/`exp` are
   is a limit statement there.
 -/
 namespace PGM.C16
-open PGM PGM.JT PGM.Oracle
+open PGM PGM.JT PGM.Oracle PGM.Sem PGM.ExactDisjoint
 
 /-- **the common last step** `belief += log(total) − logsumexp(belief); exp` produces a valid table
 for every finite belief table and every total > 0 -/
@@ -154,5 +155,24 @@ theorem lbp_disjoint_needs_pots :
         ((FG.lbp dom cliques pots T iters (FG.initMessages dom cliques)).1.get c).datavector
           = (RG.normalise T (pots.get c)).datavector) :=
   PGM.Oracle.lbp_disjoint_needs_pots 
+
+/-! **exactness on disjoint families, semantically**: every cell of every table returned by GBP (any sweep count, any warm
+messages), HPS and LBP is `T · marginal / Z` of the product model `∏_c exp θ_c` (the brute-force semantics of C01) -/
+/-- **on a disjoint family nothing is relaxed**: generalised belief propagation (any number of
+sweeps, any message state), the convex Hazan–Peng–Shashua oracle (any positive number of sweeps,
+any damping / tolerance / message state) and loopy belief propagation (any number of sweeps) each
+return, on every clique `c` and at every valid assignment `σ`, exactly
+`T · marginal(σ) / Z` of the product model `∏_c exp θ_c` -/
+theorem disjoint_oracle_exact (d : Dom) (cliques : List Clique) (pots : CliqueVec ℝ)
+    (h : OracleOK d cliques pots) (T : ℝ) (hT : 0 < T)
+    (i₁ i₂ i₃ : Nat) (rho conv : ℝ) (hi : 0 < i₂) (m₁ m₂ : RG.Msgs ℝ)
+    (c : Clique) (hc : c ∈ cliques) (σ : Attr → Nat) (hσ : d.Valid σ) :
+    ((RG.gbp d (RG.build cliques false true) pots T i₁ m₁).1.get c).sem σ
+      = T * marginal d (expPots pots) c σ / partition d (expPots pots) ∧
+    ((RG.hps d (RG.build cliques true true) (fun _ => 1) pots T i₂ rho conv m₂).1.get c).sem σ
+      = T * marginal d (expPots pots) c σ / partition d (expPots pots) ∧
+    ((FG.lbp d cliques pots T i₃ (FG.initMessages d cliques)).1.get c).sem σ
+      = T * marginal d (expPots pots) c σ / partition d (expPots pots) :=
+  PGM.ExactDisjoint.disjoint_oracle_exact d cliques pots h T hT i₁ i₂ i₃ rho conv hi m₁ m₂ c hc σ hσ
 
 end PGM.C16
